@@ -57,6 +57,33 @@ def _make_instance(spec: dict) -> Any:
     raise ValueError(cls)
 
 
+def _mutate_instance(obj: Any, spec: dict, new_seed: int) -> bool:
+    """Update the weights of a live instance IN PLACE to what a fresh instance
+    with `new_seed` would hold (the user trains / loads a checkpoint between
+    two exports).  Returns False for immutable kinds."""
+    import jax.numpy as jnp
+    from sim.fixtures.lib import W
+
+    cls = spec["cls"]
+    if cls == "Block":
+        obj.linear.kernel.value = jnp.asarray(W((D, D), new_seed))
+        obj.linear.bias.value = jnp.asarray(W((D,), new_seed + 100))
+    elif cls == "UBlock":
+        obj.lin.kernel.value = jnp.asarray(W((D, D), new_seed))
+        obj.lin.bias.value = jnp.asarray(W((D,), new_seed + 50))
+    elif cls in ("KwBlock", "LateBlock"):
+        obj.lin.kernel.value = jnp.asarray(W((D, D), new_seed))
+    elif cls == "PlainScale":
+        obj.w[...] = W((D,), new_seed)
+        obj.shift = float(new_seed)
+    elif cls == "Inner":
+        obj.norm.scale.value = jnp.asarray(1.0 + 0.1 * W((D,), new_seed))
+        obj.lin.kernel.value = jnp.asarray(W((D, D), new_seed + 7))
+    else:
+        return False
+    return True
+
+
 def build_callable(program: dict, pool: Pool, keep: list) -> Any:
     """Return fn(x, **input_params) for the generated composition."""
     import jax.numpy as jnp
@@ -201,6 +228,13 @@ def run(plan: dict) -> dict:
             gc.collect()
             stats["gc_collect"] += 1
             log.add(i=idx, op=kind)
+            continue
+        if kind == "mutate":
+            obj = pool.inst.get(op["id"])
+            if obj is not None and _mutate_instance(obj, pool.desc[op["id"]], int(op["seed"])):
+                pool.desc[op["id"]] = {**pool.desc[op["id"]], "seed": int(op["seed"])}
+                stats["probe_instance_mutated_in_place"] += 1
+            log.add(i=idx, op=kind, id=op["id"], seed=op["seed"])
             continue
         if kind == "decorate":
             tgt = getattr(lib, op["target"])
@@ -393,13 +427,46 @@ def gen_history(seed: int, run: int, n_ops: int) -> list[dict]:
             iid = r.choice(sorted(live))
             live.pop(iid)
             ops.append({"op": "drop", "id": iid})
-        elif u < 0.30:
+        elif u < 0.28:
             ops.append({"op": "gc"})
-        elif u < 0.34 and not late:
+        elif u < 0.34 and live:
+            iid = r.choice(sorted(live))
+            if live[iid]["cls"] in ("Block", "UBlock", "KwBlock", "LateBlock", "PlainScale", "Inner"):
+                # in-place weight update; often to the value another live instance (or its own past) holds
+                others = [v["seed"] for k, v in live.items() if k != iid and v["cls"] == live[iid]["cls"]]
+                new_seed = r.choice(others) if others and r.random() < 0.6 else live[iid]["seed"] + r.choice([1, 2])
+                live[iid] = {**live[iid], "seed": new_seed}
+                ops.append({"op": "mutate", "id": iid, "seed": new_seed})
+        elif u < 0.37 and not late:
             late = True
             ops.append({"op": "decorate", "target": "LateBlock", "unique": r.random() < 0.3})
-        elif u < 0.37:
+        elif u < 0.40:
             ops.append({"op": "decorate", "target": r.choice(["Block", "EqxBlock", "PlainScale"]), "unique": True})
+        elif u < 0.47 and live:
+            # scenario: export a pair, update one member in place, export the pair again
+            cands = [k for k, v in live.items() if v["cls"] in ("Block", "UBlock", "KwBlock", "PlainScale")]
+            if cands and len(live) < 8:
+                a = r.choice(cands)
+                b = new_inst(like=a) if r.random() < 0.7 else a
+                if b != a and r.random() < 0.7:
+                    live[b] = dict(live[a])  # exact twin
+                    ops[-1] = {"op": "instantiate", "id": b, "spec": live[b]}
+
+                def pair_prog() -> dict:
+                    sa: dict = {"target": live[a]["cls"], "inst": a}
+                    sb: dict = {"target": live[b]["cls"], "inst": b}
+                    if live[a]["cls"] == "KwBlock":
+                        sa["kw"] = {"scale": 2.0}
+                        sb["kw"] = {"scale": 2.0}
+                    sites = [sa, sb] if r.random() < 0.5 else [sb, sa]
+                    return {"sites": sites, "shape": [2, D], "opset": 23}
+
+                ops.append({"op": "convert", "program": pair_prog()})
+                victim = r.choice([a, b])
+                new_seed = live[victim]["seed"] + r.choice([1, 2, 3])
+                live[victim] = {**live[victim], "seed": new_seed}
+                ops.append({"op": "mutate", "id": victim, "seed": new_seed})
+                ops.append({"op": "convert", "program": pair_prog()})
         else:
             n_sites = r.choice([1, 2, 2, 3, 3, 4, 5, 6])
             sites: list[dict] = []
@@ -466,7 +533,7 @@ def main(tier: str) -> int:
             samples.extend(r.get("samples", []))
     wall = max(time.time() - t0, 1e-6)
     probes = {k: v for k, v in stats.items() if k.startswith("probe_") or k.startswith("raised:") or k in ("conversions", "conversions_ok", "conversions_raised", "exports_with_functions", "compared_with_reference", "compared_with_jax", "sharing_checked", "sharing_not_mapped", "reference_failed", "reference_still_has_functions", "faulted_conversions", "decorations", "instantiations", "drops", "gc_collect", "jax_eager_failed")}
-    warnings = [f"probe {p} stayed at zero" for p in ("probe_def_shared_between_call_sites", "probe_temp_instance_programs_exported", "probe_redecorated_unique", "fault_fired_in_function_body_path", "compared_with_reference") if not stats.get(p)]
+    warnings = [f"probe {p} stayed at zero" for p in ("probe_def_shared_between_call_sites", "probe_temp_instance_programs_exported", "probe_redecorated_unique", "probe_instance_mutated_in_place", "fault_fired_in_function_body_path", "compared_with_reference") if not stats.get(p)]
     evidence = {
         "property_id": PROP,
         "level": "exploration",
